@@ -1408,51 +1408,89 @@ def run():
 
 
 def binding_selftest(sc, good):
-    """Corrupted copies of a clean recorded trace must be rejected with the expected clause."""
-    base = None
-    for x in good:
-        st = x["steps"]
-        if (any(s["op"] == "observe" and s.get("final") == 1 and s.get("tracks") == ["ended"] and s["channels"] for s in st)
-                and all(s.get("res", "ok") == "ok" for s in st)):
-            base = x
-            break
-    if base is None:
-        base = good[0]
-    muts = []
-
-    def mut(name, expect, fn):
-        t = copy.deepcopy(base["steps"])
-        if fn(t) is not False:
-            muts.append({"id": len(muts) + 1, "steps": t, "name": name, "expect": expect})
-
-    def last_final(t):
-        return max(i for i, s in enumerate(t) if s["op"] == "observe" and s.get("final") == 1)
+    """Corrupted copies of recorded traces must be rejected with the expected clause: the
+    clause has to appear among the FAIL lines of the corrupted copy and not among those of
+    the trace as recorded (so the test also works on a tree where no execution is clean)."""
+    def final_obs(t):
+        idx = [i for i, s in enumerate(t) if s["op"] == "observe" and s.get("final") == 1]
+        return idx[-1] if idx else None
 
     def first_ret(t):
-        return min(i for i, s in enumerate(t) if s["op"] == "close_ret" and s["n"] == 1)
-    mut("state", "C19.state_not_closed", lambda t: t[last_final(t)].__setitem__("ice", "completed"))
-    mut("task", "C19.task_left_running", lambda t: t[last_final(t)].__setitem__("tasks", ["RTCRtpSender._run_rtcp"]))
-    mut("thread", "C19.thread_left_running", lambda t: t[last_final(t)].__setitem__("threads", ["audio-decoder"]))
-    mut("hang", "C19.close_hangs", lambda t: t[first_ret(t)].__setitem__("res", "timeout"))
-    mut("raised", "C19.close_raised", lambda t: t[first_ret(t)].__setitem__("res", "raised"))
-    mut("event", "C19.event_after_close",
-        lambda t: t.insert(first_ret(t) + 1, {"op": "event", "side": t[first_ret(t)]["side"], "src": "pc", "name": "connectionstatechange"}))
-    if base["steps"][last_final(base["steps"])].get("tracks"):
-        mut("track", "C19.track_not_ended", lambda t: t[last_final(t)].__setitem__("tracks", ["live"]))
-    if base["steps"][last_final(base["steps"])].get("channels"):
-        mut("channel", "C19.channel_not_closed", lambda t: t[last_final(t)].__setitem__("channels", ["open"]))
+        idx = [i for i, s in enumerate(t) if s["op"] == "close_ret" and s["n"] == 1]
+        return idx[0] if idx else None
 
-    def second(t):
-        i = max(i for i, s in enumerate(t) if s["op"] == "close_ret" and s["n"] >= 2)
+    def later_ret(t):
+        idx = [i for i, s in enumerate(t) if s["op"] == "close_ret" and s["n"] >= 2 and s["res"] == "ok"]
+        return idx[-1] if idx else None
+
+    def set_final(field, value, need=None):
+        def fn(t):
+            i = final_obs(t)
+            if i is None or (need is not None and not t[i].get(need)):
+                return False
+            t[i][field] = value
+        return fn
+
+    def set_ret(value):
+        def fn(t):
+            i = first_ret(t)
+            if i is None or t[i]["res"] != "ok":
+                return False
+            t[i]["res"] = value
+        return fn
+
+    def late_event(t):
+        i = first_ret(t)
+        if i is None or t[i]["res"] != "ok":
+            return False
+        t.insert(i + 1, {"op": "event", "side": t[i]["side"], "src": "pc", "name": "connectionstatechange"})
+
+    def second_raises(t):
+        i = later_ret(t)
+        if i is None:
+            return False
         t[i]["res"] = "raised"
-    mut("second", "C19.second_close_not_noop", second)
-    _, verdicts = T.validate_traces(sc, "TracePcLife", TRACE_CFG, [{"id": m["id"], "steps": m["steps"]} for m in muts], timeout=300)
+    plan = [("state", "C19.state_not_closed", set_final("ice", "completed")),
+            ("channel", "C19.channel_not_closed", set_final("channels", ["open"], need="channels")),
+            ("track", "C19.track_not_ended", set_final("tracks", ["live"], need="tracks")),
+            ("task", "C19.task_left_running", set_final("tasks", ["RTCRtpSender._run_rtcp"])),
+            ("thread", "C19.thread_left_running", set_final("threads", ["audio-decoder"])),
+            ("hang", "C19.close_hangs", set_ret("timeout")),
+            ("raised", "C19.close_raised", set_ret("raised")),
+            ("event", "C19.event_after_close", late_event),
+            ("second", "C19.second_close_not_noop", second_raises)]
+    cands = sorted(good, key=lambda x: (0 if x["sc"].get("src") == "reference" else 1, x["id"]))[:12]
+    traces, meta = [], []
+    for bi, base in enumerate(cands):
+        traces.append({"id": len(traces) + 1, "steps": base["steps"]})
+        meta.append((bi, None, None))
+        for name, expect, fn in plan:
+            t = copy.deepcopy(base["steps"])
+            if fn(t) is False:
+                continue
+            traces.append({"id": len(traces) + 1, "steps": t})
+            meta.append((bi, name, expect))
+    val, verdicts = T.validate_traces(sc, "TracePcLife", TRACE_CFG, traces, timeout=600)
+    if len(verdicts) != len(traces):
+        raise T.MachineryError("binding self-test: %d of %d verdicts\n%s" % (len(verdicts), len(traces), val.out[-1500:]))
+    fails = {}
+    for f in val.printed("FAIL"):
+        fails.setdefault(f[1], set()).add((f[2], f[4]))
+    base_fails = {}
+    for tr, (bi, name, expect) in zip(traces, meta):
+        if name is None:
+            base_fails[bi] = {c for c, _ in fails.get(tr["id"], ())}
     out = {}
-    for m in muts:
-        got = verdicts.get(m["id"], ("?", 0))[0]
-        out[m["name"]] = got
-        if got != m["expect"]:
-            raise T.MachineryError("binding self-test: corrupted trace (%s) judged %r, expected %r" % (m["name"], got, m["expect"]))
+    for tr, (bi, name, expect) in zip(traces, meta):
+        if name is None or expect in base_fails[bi] or name in out:
+            continue          # this base already fails that clause: the corruption shows nothing
+        got = {c for c, _ in fails.get(tr["id"], ())}
+        if expect not in got:
+            raise T.MachineryError("binding self-test: corrupted trace (%s) not rejected with %s (got %s)"
+                                   % (name, expect, sorted(got)))
+        out[name] = expect
+    if len(out) < 5:
+        raise T.MachineryError("binding self-test: only %d corruptions could be tried: %s" % (len(out), sorted(out)))
     return out
 
 
